@@ -47,3 +47,5 @@ def run(ctx):
     boundaries.check_codes(ctx, 'C11.RE', 'C11')
     boundaries.check_writes(ctx, 'C11.RW', 'C11')
     boundaries.check_guards(ctx, 'C11.RG', 'C11')
+    from .. import boundaries as _b
+    _b.check_updates(ctx, 'C11.RU', 'C11')
